@@ -144,7 +144,19 @@ def regenerate_tables():
 
 
 def lean_gate(modules, need_driver=True):
-    """Regenerate tables + build + audit. Returns (ok, info) with obligations/discharged/failures/log."""
+    """Regenerate tables + build + audit. Returns (ok, info) with obligations/discharged/failures/log.
+    Serialised across processes (several checks may run at once and share lean/.lake)."""
+    import fcntl
+    os.makedirs(os.path.join(LEAN, ".lake"), exist_ok=True)
+    with open(os.path.join(LEAN, ".lake", "nsgverif.lock"), "w") as lock:
+        fcntl.flock(lock, fcntl.LOCK_EX)
+        try:
+            return _lean_gate_locked(modules, need_driver)
+        finally:
+            fcntl.flock(lock, fcntl.LOCK_UN)
+
+
+def _lean_gate_locked(modules, need_driver=True):
     tables, terr = regenerate_tables()
     ok, info = _lean_gate(modules, need_driver)
     info["tables"] = tables
